@@ -370,6 +370,9 @@ func globalUseIsWrite(info *types.Info, stack []ast.Node) (bool, string) {
 					return false, ""
 				}
 			}
+			if fn := calleeFunc(info, p); fn != nil && funcKey(fn) == "(io.Writer).Write" {
+				return false, "" // io.Writer contract: Write must not modify the slice
+			}
 			if tv, ok := info.Types[cur.(ast.Expr)]; ok {
 				switch tv.Type.Underlying().(type) {
 				case *types.Map, *types.Slice, *types.Pointer:
